@@ -111,9 +111,10 @@ def honest(ctx, n):
 def small_order(ctx, n):
     rng = ctx.rng
     encs = torsion_encodings()
-    for _ in range(n):
+    for it in range(n):
         Ab, Am, Anc = rng.choice(encs)
-        phc = None if rng.random() < 0.8 else vals.rb(rng, 2)
+        # alternate pure / prehashed (with and without context bytes) so every class is seen by both families of verifiers
+        phc = [None, b'', vals.rb(rng, 2), None][it % 4]
         # search a message such that enc(-[k]A) == R for a chosen torsion R encoding, S = 0 (accepted non-strict)
         Rb, Rm, Rnc = rng.choice(encs)
         found = None
